@@ -516,6 +516,8 @@ def judge(pool, states, hist, obs):
             if o.get("err"):
                 if "Not Found" in o["err"]:
                     return ("jobs restart job-missing" if after else "jobs resume job-missing", o["err"][:100], k)
+                if remarked.get(j) and "marks" in shape:
+                    return (resume_sig(shape, True), "%s resumed with %s is rejected: %s" % (ops(info[j].prog), ops(ext), short(o["err"])), k)
                 return ("jobs resume error reading %s: %s" % (shape, short(o["err"])), "%s + %s" % (ops(info[j].prog), ops(ext)), k)
             ty = "aggregation" if ent.sid < 0 else states[ent.sid]["ty"]
             if ent.sid >= 0:
